@@ -144,8 +144,6 @@ impl Method for LowestIndex {
 //@end
 }
 
-//@export-end
-
 // C08: on a constant stream the newest element is always the newest extremum: the index is exactly 0
 pub proof fn highest_index_const_step(pre: HighestIndex, v: R, post: HighestIndex, out: PeriodType)
 	requires pre.inv(), pre.window.view() =~= konst(pre.window.view().len(), v), HighestIndex::step(&pre, &v, &post, &out)
@@ -163,5 +161,6 @@ pub proof fn lowest_index_const_step(pre: LowestIndex, v: R, post: LowestIndex, 
 	assert(s =~= konst(pre.window.view().len(), v));
 	if out > 0 { assert(s[s.len() - 1]@ > post.value@); }
 }
+//@export-end
 } // verus!
 fn main() {}
